@@ -41,7 +41,9 @@ func c18Pool() []c18Type {
 		}, func(i int) any { return map[string]int64{"k": int64(i)} }},
 		{"any", reflect.TypeOf((*any)(nil)).Elem(), func() schema.Type { return schema.NewAnySchema() }, func(i int) any { return fmt.Sprintf("any%d", i) }},
 		{"object", reflect.TypeOf(map[string]any{}), obj, func(i int) any { return map[string]any{"a": int64(i)} }},
-		{"enum_int", reflect.TypeOf(int64(0)), func() schema.Type { return schema.NewIntEnumSchema(map[int64]*schema.DisplayValue{1: nil, 2: nil}, nil) }, func(i int) any { return int64(1 + i%2) }},
+		{"enum_int", reflect.TypeOf(int64(0)), func() schema.Type {
+			return schema.NewIntEnumSchema(map[int64]*schema.DisplayValue{1: nil, 2: nil}, nil)
+		}, func(i int) any { return int64(1 + i%2) }},
 		{"typed_enum", reflect.TypeOf(namedStr("")), func() schema.Type {
 			return schema.NewTypedStringEnumSchema(map[namedStr]*schema.DisplayValue{"x": nil, "y": nil})
 		}, func(i int) any { return namedStr("x") }},
